@@ -158,6 +158,11 @@ let handle (x : sexp) : (string * string) list =
       | Some a -> a
       | None -> raise (Oracle_miss (Printf.sprintf "root fetch %d" (int_of_n fid))) in
     let kind_of fid = (List.find (fun f -> f.f_id = fid) fetches).f_kind in
+    (* a loader error names the subgraph and the path only: two fetches to one subgraph at one path are told apart by neither side *)
+    let canon fid =
+      match List.find_opt (fun f -> f.f_id = fid) fetches with
+      | None -> fid
+      | Some g -> List.fold_left (fun m f -> if f.f_ds = g.f_ds && f.f_path = g.f_path && int_of_n f.f_id < int_of_n m then f.f_id else m) fid fetches in
     let runs = List.map (run_of fetches) rxs in
     let base = List.hd runs in
     let base_fids = List.map (fun r -> int_of_n r.rq_fetch) base.reqs in
@@ -225,7 +230,7 @@ let handle (x : sexp) : (string * string) list =
           if mdata <> r.draw then
             add i r "mismatch" (Printf.sprintf "corr:C07/response data model=%s impl=%s" (quote_string mdata) (quote_string r.draw));
           let merrs =
-            List.map (fun e -> if int_of_n e.le_kind = 6 then "(l 6 -1)" else Printf.sprintf "(l %s %s)" (decimal_of_n e.le_kind) (decimal_of_n e.le_fetch)) o.o_lerrors
+            List.map (fun e -> if int_of_n e.le_kind = 6 then "(l 6 -1)" else Printf.sprintf "(l %s %s)" (decimal_of_n e.le_kind) (decimal_of_n (canon e.le_fetch))) o.o_lerrors
             @ List.map (fun e -> Printf.sprintf "(v %s (%s))" (decimal_of_n e.ge_kind) (String.concat " " ("path" :: List.map show_pelem e.ge_path))) o.o_resolved.r_errors in
           let merrs = norm_errs merrs in
           if r.valid && merrs <> r.errs then
